@@ -211,11 +211,13 @@ CLAIMS = {
              "series, frame f = mean of the step function over [f*l, (f+1)*l) for fractional l = length / num_intervals; exact reals), "
              "from_3d_numpy_to_2d_array (column-then-time order), "
              "SeriesToPrimitives/SeriesToSeriesRowTransformer.transform (row i = wrapped transformer applied to instance i, fresh clone), "
+             "Tabularizer / ColumnConcatenator.transform on 3-d arrays (column-then-time order), RandomIntervalFeatureExtractor.transform (column "
+             "per (feature, interval) = that feature of that window, incl. the np.apply_along_axis fallback), "
              "TabularToSeriesAdaptor.transform/inverse_transform (series as one column, index kept), Imputer.transform (for 9 rules x "
              "missing-value option: the operation chain is [replace the missing-value marker] -> the chosen rule -> forward fill -> "
              "backward fill, each applied to the result of the previous step, on a copy of the input).",
         note="NOT proved, bounded tier only (22k cases quick, real transformers vs plain-python formulas): interpolation, "
-             "column concatenation, random-interval feature extraction, slope, imputation rules, cosine, "
+             "nested-DataFrame input of tabularisation / concatenation, slope, imputed values, cosine, "
              "autocorrelation -- their code is pandas nested-DataFrame plumbing or floating point; assumed contracts: "
              "_concat_nested_arrays, _get_column_names, from_2d_array_to_nested, from_nested_to_2d_array, check_X on a nested frame, "
              "_get_max_length / get_min_length (nested max / min over map objects); 1..3 fitted intervals; PAA: "
@@ -254,11 +256,14 @@ CLAIMS = {
              "(accuracy_score(y, predict(X))), column ensemble predict_proba / predict (average of the members on their own columns; "
              "dropped / empty / remainder entries), BOSSEnsemble / ContractableBOSS / TemporalDictionaryEnsemble.predict_proba "
              "((weighted) vote shares counted through the ensemble's own class dictionary), IndividualBOSS.predict (label i = one "
-             "nearest-neighbour query on bag i alone) and predict_proba (one-hot rows); lemmas: averages and vote shares of "
+             "nearest-neighbour query on bag i alone) and predict_proba (one-hot rows), RandomIntervalSpectralForest / "
+             "SupervisedTimeSeriesForest predict_proba (average over trees, tree t on ITS interval / lag resp. intervals of the series, its "
+             "periodogram and first differences) and predict (arg-max decoding); lemmas: averages and vote shares of "
              "distributions are distributions (entries in [0, 1], rows sum to 1 -- induction over the columns).",
         note="trees / members / label encoder abstract; np.mean, np.std, _slope along a row window are uninterpreted functions of the "
              "cells (assumed: _slope formula, _get_column, LabelEncoder.inverse_transform, accuracy_score); 1..3 trees / members; "
-             "RISE, STSF, MUSE, the 1-NN search / SFA words and the ensembles' random tie-breaking in predict are bounded-tier only (5k cases quick)",
+             "MUSE, the feature values of RISE / STSF (_transform assumed / abstract), the 1-NN search / SFA words and the ensembles' random "
+             "tie-breaking in predict are bounded-tier only (5k cases quick)",
         technique="contract-based deductive verification: AST->VC generation (pyvc) + z3; argmax axiomatisation, abstract components, induction lemmas",
         design="6/C17"),
     "C18": dict(
